@@ -64,6 +64,11 @@ def handle (j : Json) : Except String Json := do
   let target := toStr (← jstr j "target")
   let env : Env := ⟨← jnat j "dflt", ← jnat j "dgid", ← jnat j "namemax"⟩
   let old ← optFile j "old"
+  -- order of the copy of group and mode: as found (chmod, chown) or repaired (chown, chmod; fixes/C08-H1.diff)
+  let cf := match jopt j "cf" with
+    | some (Json.bool b) => b
+    | _ => false
+  let ops := fun (pid : Nat) (cs : List (List Nat)) => if cf then atomicWriteOpsCF pid target cs else atomicWriteOps pid target cs
   match op with
   | "run" =>
     let pid ← jnat j "pid"
@@ -72,7 +77,7 @@ def handle (j : Json) : Except String Json := do
     let fault ← faultsOf j "fault"
     let t := tmpName target pid
     let fs0 : FS Nat := FS.set (FS.set emptyFS target old) t stale
-    let p0 : Proc Nat := Proc.init (atomicWriteOps pid target cs)
+    let p0 : Proc Nat := Proc.init (ops pid cs)
     let (fs, p, crashed) := match jopt j "fuel" with
       | none => let r := run env strict fault fs0 p0; (r.1, r.2, false)
       | some f => match f.getNat? with
@@ -90,8 +95,8 @@ def handle (j : Json) : Except String Json := do
     let ta := tmpName target pa
     let tb := tmpName target pb
     let fs0 : FS Nat := FS.set (FS.set (FS.set emptyFS target old) ta (← optFile ja "stale")) tb (← optFile jb "stale")
-    let s0 : Sys2 Nat := ⟨fs0, Proc.init (atomicWriteOps pa target (← chunksOf ja)),
-                          Proc.init (atomicWriteOps pb target (← chunksOf jb))⟩
+    let s0 : Sys2 Nat := ⟨fs0, Proc.init (ops pa (← chunksOf ja)),
+                          Proc.init (ops pb (← chunksOf jb))⟩
     let sched ← (← jarr j "sched").toList.mapM fun x => do pure ((← x.getNat?) != 0)
     let states := (List.range (sched.length + 1)).map fun i => runSched env strict noFaults noFaults s0 (sched.take i)
     let fin := runSched env strict noFaults noFaults s0 sched
